@@ -13,7 +13,7 @@ RULE = ("random expression trees (depth <= 4) over the ten model kinds, DictArit
         "+ - * ** / unary -, reflected and in-place forms and aliased operands (x op x); plus value-function calls; "
         "non-trivial = tree with at least one binary operator and a non-constant leaf, or a value call on a "
         "non-constant model; distinct by canonical JSON")
-THEOREMS = "C05_tree C05_add C05_sub C05_rsub C05_mul C05_pow C05_neg C05_truediv C05_iadd C05_isub C05_imul C05_keyerror C05_*_value C05_squash"
+THEOREMS = "C05_tree C05_add C05_sub C05_rsub C05_mul C05_pow C05_neg C05_truediv C05_iadd C05_isub C05_imul C05_keyerror C05_*_value C05_squash C05_unique_zero C05_unique_sub C05_unique_zero_spin C05_unique_sub_spin"
 MODELLED = "Python operator dispatch (forward/reflected/in-place) is modelled by Expr.interp; floats only on dyadic values"
 
 BOOL = ["PUBOMatrix", "QUBOMatrix", "PUBO", "QUBO", "PCBO"]
